@@ -146,19 +146,25 @@ def _obj_term(src: str, holder: Path, top: Path) -> Term:
     return t
 
 
-def _is_field_value(v: Term, obj: Term, attr: str, holder: Path, before: Event) -> bool:
-    """v is the value of obj.attr at the time of `before`: a (versioned) read of that field, or
-    the value of the last store to it earlier on the path"""
-    sv = strip_ver(v)
-    if sv == ("attr", strip_ver(obj), attr):
-        return True
+def _is_field_value(ctx: Ctx, v: Term, obj: Term, attr: str, holder: Path, before: Event) -> bool:
+    """v is the value obj.attr has at the time of `before`: the value of the last store to it
+    earlier on the path, or else a read of that field that is not older than the last call
+    that may have changed it"""
     last = None
     for x in holder.events:
         if x is before:
             break
         if x.kind == "store" and x.attr == attr and strip_ver(x.base) == strip_ver(obj):
             last = x
-    return last is not None and last.value == v
+    if last is not None:
+        return last.value == v
+    from ..kit import current_field_read
+
+    want = current_field_read(ctx, before, obj, "Order", attr)
+    if v == want:
+        return True
+    # the object may be reached through an alias with identical access path
+    return strip_ver(v) == ("attr", strip_ver(obj), attr) and (len(v) > 3 and v[3] or 0) == (len(want) > 3 and want[3] or 0)
 
 
 def _kwnode(call: ast.Call, name: str) -> Optional[ast.AST]:
@@ -197,7 +203,7 @@ def r3(ctx: Ctx) -> None:
                         if v is None:
                             bad.append(f"{field}=<missing>")
                             continue
-                        if not _is_field_value(v, objt, attr, holder, e):
+                        if not _is_field_value(ctx, v, objt, attr, holder, e):
                             bad.append(f"{field}={short(v)[:60]}")
                     ctx.check(not bad, f, e.node, f"{cls_} fields are copied from {src}.<same field>", ", ".join(f"{k}={src}.{v_}" for k, v_ in fmap.items()), ", ".join(bad) or "all fields agree")
                     # nothing changes the source fields after the record is built
@@ -409,3 +415,26 @@ def _boundary_seq(events: List[Event]) -> List[str]:
             elif e.name == "_trigger_event_after_session":
                 seq.append("after_session")
     return seq
+
+
+@rule("C10.R7", "every component that can write records is handed the logger: constructors pass their `logger` argument on to the base constructor, and the runner hands its logger to every market, agent and session it creates", "T11 forwarding agreement", floor=4)
+def r7(ctx: Ctx) -> None:
+    from ..kit import super_init_forwarding
+
+    n = 0
+    for f, node, ok, what in super_init_forwarding(ctx, "logger"):
+        n += 1
+        ctx.check(ok, f, node, f"{f.qualname} forwards `logger` to its base constructor", "super().__init__(..., logger=logger)", what)
+    ctx.require(n >= 3, "fewer logger-taking constructors than confirmed by reading")
+    m = 0
+    for q in ("SequentialRunner._generate_markets", "SequentialRunner._generate_agents", "SequentialRunner._generate_sessions"):
+        f = ctx.func(q)
+        for p in ctx.paths(q):
+            for e in p.walk_events(True):
+                if e.kind == "call" and e.site.how == "ctor" and any("logger" in t.params for t in e.site.targets):
+                    if e.name in ("event_class",):
+                        continue
+                    m += 1
+                    a = kw(e, "logger")
+                    ctx.check(a is not None and key(strip_ver(a)) == "self.logger", f, e.node, f"{q}: {e.name} is created with the runner's logger", "logger=self.logger", short(a))
+    ctx.require(m >= 3, "fewer component constructions with a logger than confirmed")
